@@ -164,6 +164,8 @@ pub struct GenCfg {
     /// declared lists may contain repetitions / the same id under reads and writes
     pub messy_decl: bool,
     pub tl_in_batch: bool,
+    /// thread-local systems inside batches declare nothing (no borrow conflict can come of them)
+    pub tl_in_batch_quiet: bool,
     pub funnel: bool,
     /// no resources at all: only dependencies / barriers order things
     pub p_unrelated: u64,
@@ -204,6 +206,7 @@ impl GenCfg {
             p_odd_name: 10,
             messy_decl: false,
             tl_in_batch: false,
+            tl_in_batch_quiet: false,
             funnel: false,
             p_unrelated: 10,
             max_batch_n: 3,
@@ -311,6 +314,12 @@ impl GenCfg {
                 c.p_unrelated = 50;
                 c.p_dup_name = 4;
                 c.max_n = 10;
+            }
+            "tlbatch" => {
+                c.tl_in_batch = true;
+                c.tl_in_batch_quiet = true;
+                c.p_batch = 35;
+                c.p_tl = 30;
             }
             "kf1" => {
                 c.tl_in_batch = true;
@@ -562,7 +571,7 @@ impl Gen {
             let tag = self.next_tag;
             self.next_tag += 1;
             if self.rng.chance(self.cfg.p_tl) && (depth == 0 || self.cfg.tl_in_batch) {
-                let (r, w) = self.access();
+                let (r, w) = if depth > 0 && self.cfg.tl_in_batch_quiet { (vec![], vec![]) } else { self.access() };
                 v.push(Op::Tl { tag, r, w });
                 continue;
             }
